@@ -4,6 +4,70 @@ From QV Require Import Base Fields SrcFacts Msg SrcDecisions Cache CacheSpec Cac
 From Coq Require Import ZifyBool ZifyNat ZifyN.
 Local Open Scope Z_scope.
 
+(* ---- the decisions of provider.cpp regenerated from the source (SrcDecisions): Provider::update and the entry guard of
+   onMessageReceived in the shape the proofs below were written against, proved equal to what the model now calls ---- *)
+Definition prov_on_message_old (p : provst) (m : message) : list eff :=
+  if negb (pv_confirmed p) || m_response m then [] else
+  let qs := m_queries m in
+  (* the if / else-if chain over the questions *)
+  let step := fun (acc : bool * bool * bool * bool) (q : query) =>
+    let '(sb, sp, ss, st) := acc in
+    if provider_q_browse q (pv_ptr p) (pv_srv p) (pv_txt p) then (true, sp, ss, st)
+    else if provider_q_ptr q (pv_ptr p) (pv_srv p) (pv_txt p) then (sb, true, ss, st)
+    else if provider_q_srv q (pv_ptr p) (pv_srv p) (pv_txt p) then (sb, sp, true, st)
+    else if provider_q_txt q (pv_ptr p) (pv_srv p) (pv_txt p) then (sb, sp, ss, true)
+    else acc in
+  let '(sb, sp, ss, st) := fold_left step qs (false, false, false, false) in
+  (* known-answer suppression *)
+  let kstep := fun (acc : bool * bool * bool) (r : record) =>
+    let '(sp, ss, st) := acc in
+    if provider_known_ptr r (pv_ptr p) (pv_srv p) (pv_txt p) then (false, ss, st)
+    else if provider_known_srv r (pv_ptr p) (pv_srv p) (pv_txt p) then (sp, false, st)
+    else if provider_known_txt r (pv_ptr p) (pv_srv p) (pv_txt p) then (sp, ss, false)
+    else acc in
+  let '(sp, ss, st) := fold_left kstep (m_records m) (sp, ss, st) in
+  let ss := sp || ss in
+  let st := sp || st in
+  if sb || sp || ss || st then
+    let r0 := reply_to m in
+    let recs := (if sb then [pv_browse p] else []) ++ (if sp then [pv_ptr p] else []) ++
+                (if ss then [pv_srv p] else []) ++ (if st then [pv_txt p] else []) in
+    [ESend (mkMessage (m_addr r0) (m_port r0) (m_id r0) true false [] recs)]
+  else [].
+
+Definition prov_update_old (c : comp) (s : service) : comp * list eff :=
+  let p := set_prov (cp_prov c) true (pv_confirmed (cp_prov c)) in
+  let sname := replace_byte DOT DASH (bs_data (s_name s)) in
+  let fq := sname ++ [DOT] ++ bs_data (s_type s) in
+  let p1 := set_proposed p (set_target (s_type s) (pv_browseP p))
+                           (set_target (Some fq) (set_name (s_type s) (pv_ptrP p)))
+                           (let sr := set_port (s_port s) (set_name (Some fq) (pv_srvP p)) in
+                            if h_reg (cp_host c) then set_target (Some (h_name (cp_host c))) sr else sr)
+                           (set_attrs (s_attrs s) (set_name (Some fq) (pv_txtP p))) in
+  if negb (match bs_data (r_target (pv_srvP p1)) with [] => true | _ :: _ => false end) then
+    if negb (pv_confirmed p1) || negb (bs_eqb (Some fq) (r_name (pv_srv p1))) then
+      let '(pb, es) := confirm p1 (cp_prober c) in (mkComp (cp_host c) p1 pb, es)
+    else if match cp_prober c with Some pb => bytes_eqb (pb_base pb ++ pb_tail pb) fq | None => false end then
+      (* a probe for this very name is pending (probedName == fqName; the prober's base ++ tail is the name confirm() was
+         called for): it publishes the updated proposals when it completes *)
+      (mkComp (cp_host c) p1 (cp_prober c), [])
+    else
+      (* the obsolete prober (if any) is deleted, its timer with it; records pointing at a previous hostname are withdrawn *)
+      let '(p2, e2) := if bs_eqb (r_target (pv_srvP p1)) (r_target (pv_srv p1)) then (p1, []) else farewell p1 in
+      let '(p3, e3) := publish p2 in
+      (mkComp (cp_host c) p3 None, (match cp_prober c with Some _ => [EStop T_PROBER] | None => [] end) ++ e2 ++ e3)
+  else (mkComp (cp_host c) p1 (cp_prober c), []).
+
+Lemma prov_on_message_eq p m : prov_on_message p m = prov_on_message_old p m.
+Proof. unfold prov_on_message, prov_on_message_old, provider_ignore_message. reflexivity. Qed.
+
+Lemma prov_update_eq c s : prov_update c s = prov_update_old c s.
+Proof.
+  unfold prov_update, prov_update_old, provider_has_target, provider_must_confirm, provider_probe_pending, provider_retarget.
+  cbv zeta. destruct (cp_prober c) as [pb|]; unfold bs_eqb; cbn [bs_data andb]; rewrite ?Bool.if_negb; reflexivity.
+Qed.
+
+
 (* ------------------------------------------------------------------ C11 *)
 Lemma browse_is_browse_type : BROWSE = browse_type.
 Proof. reflexivity. Qed.
@@ -31,7 +95,7 @@ Theorem prov_reply_spec p m :
   match spec_prov_reply (pv_confirmed p) (pv_browse p) (pv_ptr p) (pv_srv p) (pv_txt p) m with
   | Some r => [ESend r] | None => [] end.
 Proof.
-  unfold prov_on_message, spec_prov_reply.
+  rewrite prov_on_message_eq. unfold prov_on_message_old, spec_prov_reply.
   destruct (negb (pv_confirmed p) || m_response m); [reflexivity|].
   unfold spec_asked, spec_known.
   erewrite (fold_left_ext _ (fun (acc : bool * bool * bool * bool) q =>
@@ -208,7 +272,7 @@ Qed.
 Lemma prov_update_ok G c s :
   PInv G c -> PInv G (fst (prov_update c s)) /\ all_ok G (snd (prov_update c s)) /\ cp_host (fst (prov_update c s)) = cp_host c.
 Proof.
-  intro I. apply PInv_of in I as [Ireg P]. unfold prov_update.
+  intro I. apply PInv_of in I as [Ireg P]. rewrite prov_update_eq. unfold prov_update_old.
   set (p := set_prov (cp_prov c) true (pv_confirmed (cp_prov c))).
   set (fq := replace_byte DOT DASH (bs_data (s_name s)) ++ [DOT] ++ bs_data (s_type s)).
   set (p1 := set_proposed p _ _ _ _).
@@ -305,7 +369,7 @@ Proof.
                                 | Some pb => let '(pb', e) := prober_handle now pb (EvMsg m) in (Some pb', e)
                                 | None => (None, []) end))).
     { destruct (cp_prober c) as [pb|]; [|apply all_ok_nil]. cbn [prober_handle].
-      destruct (pb_confirmed pb || negb (m_response m)); [apply all_ok_nil|].
+      unfold prober_ignore_message in *. destruct (pb_confirmed pb || negb (m_response m)); [apply all_ok_nil|].
       assert (forall rs p, all_ok G (snd (on_records rs p))) as OR.
       { induction rs as [|r rs IHr]; intro p0; cbn [on_records]; [apply all_ok_nil|].
         destruct (prober_conflict r (pb_proposed p0)); [|apply IHr].
